@@ -34,6 +34,7 @@ impl RestorePlan {
         let mut steps = Vec::new();
         let mut extern_files: HashSet<PathBuf> = HashSet::new();
         let mut to_find: HashMap<Hash, Vec<PathBuf>> = HashMap::new();
+        let mut extern_sizes: HashMap<PathBuf, u64> = HashMap::new();
 
         info!("Building restoring plan...");
 
@@ -58,12 +59,14 @@ impl RestorePlan {
                     if file.unique || file.size == 0 {
                         own_files.push((path, file.hash, file.size));
                     } else {
+                        extern_sizes.insert(path.clone(), file.size);
                         to_find.entry(file.hash).or_default().push(path);
                     }
                 }
 
                 for (path, hash, size) in own_files {
                     let mut paths = to_find.remove(&hash).unwrap_or_default();
+                    ok &= check_extern_sizes(&paths, &extern_sizes, size);
                     extern_files.extend(paths.iter().cloned());
 
                     paths.reserve_exact(1);
@@ -86,6 +89,7 @@ impl RestorePlan {
                     }
 
                     if let Some(paths) = to_find.remove(&file.hash) {
+                        ok &= check_extern_sizes(&paths, &extern_sizes, file.size);
                         extern_files.extend(paths.iter().cloned());
                         to_restore.insert(file.path.into(), RestoringFile {
                             hash: file.hash,
@@ -124,4 +128,17 @@ impl RestorePlan {
 
         Ok((RestorePlan {steps, extern_files, missing_files}, ok))
     }
+}
+
+fn check_extern_sizes(paths: &[PathBuf], extern_sizes: &HashMap<PathBuf, u64>, size: u64) -> bool {
+    let mut ok = true;
+
+    for path in paths {
+        if extern_sizes.get(path).is_some_and(|&extern_size| extern_size != size) {
+            error!("{:?} is recorded with a size which differs from the size of its data.", path);
+            ok = false;
+        }
+    }
+
+    ok
 }
